@@ -1,4 +1,5 @@
 import DoltVerif.Lemmas.Query
+import DoltVerif.Lemmas.QueryMerge
 /-!
 C26 — Dolt returns the same query results as the reference engine (partial by design).
 
@@ -297,15 +298,27 @@ end DoltVerif.C26
 
 namespace DoltVerif.C26
 open DoltVerif.Query
-/-- **not proved yet** (kept as the full statement): the inner merge join over inputs sorted on the
-join key returns a permutation of the nested-loop join on SQL key equality — duplicates on both
-sides are all paired, NULL keys (which the tuple comparison treats as equal) never match because the
-join filter rejects them.  The state machine is modelled (`mergeJoinFuel`) and compared with dolt
-and with the reference engine by the `sqlquery` harness. -/
-def merge_join_eq_nlj_full : Prop :=
-  ∀ (lk rk : Tuple → Cell) (left right : List Tuple),
-    left.Pairwise (fun a b => clt (lk b) (lk a) = false) → right.Pairwise (fun a b => clt (rk b) (rk a) = false) →
-    (mergeJoin lk rk (fun a b => keyEq (lk a) (rk b)) left right).Perm (nlj (fun a b => keyEq (lk a) (rk b)) left right)
+/-- **`merge_join_eq_nlj`** — the inner merge join (compare / fillMatchBuf / match stages with the
+look-ahead buffer re-used for equal left keys) over inputs sorted on the join key returns a
+permutation of the nested-loop join on SQL key equality: duplicates on both sides are all paired,
+nothing is paired twice, and NULL keys — which the tuple comparison treats as *equal* — never
+match because the join filter rejects them.  (Order differs: the buffer is emitted before the
+current right row.) -/
+theorem merge_join_eq_nlj (lk rk : Tuple → Cell) (left right : List Tuple)
+    (hL : left.Pairwise (fun a b => clt (lk b) (lk a) = false)) (hR : right.Pairwise (fun a b => clt (rk b) (rk a) = false)) :
+    (mergeJoin lk rk (fun a b => keyEq (lk a) (rk b)) left right).Perm (nlj (fun a b => keyEq (lk a) (rk b)) left right) :=
+  mergeJoin_perm lk rk left right hL hR
+
+/-- **not modelled** (kept as the full statement): the LEFT OUTER variant (`isLeftJoin`): every left
+row without an accepted match additionally yields one NULL-extended row.  The implementation violates
+it (known finding `mergejoin/left-outer-equal-left-keys-lose-lookahead`: after emitting the
+NULL-extended row of a left key whose successor compares equal, `Next` re-enters the compare stage
+and `fillMatchBuf` overwrites the look-ahead right row). -/
+def left_merge_join_eq_left_nlj_full : Prop :=
+  ∀ (impl : List Tuple → List Tuple → List (Tuple × Option Tuple)) (lk rk : Tuple → Cell) (left right : List Tuple),
+    (impl left right).Perm (left.flatMap (fun a =>
+      let ms := right.filter (fun b => keyEq (lk a) (rk b))
+      if ms.isEmpty then [(a, none)] else ms.map (fun b => (a, some b))))
 
 example : mergeJoin headCell headCell (fun a b => keyEq (headCell a) (headCell b))
     [[none, some 1], [some 1, some 2], [some 2, some 3], [some 2, some 4], [some 5, some 5]]
